@@ -1,0 +1,87 @@
+//go:build verif
+// +build verif
+
+// Machine-checked contracts for this package (checked by /verif/govc).
+// Comment-only: no executable code.
+
+package handler
+
+//@ import types "github.com/ovrclk/akash/x/market/types"
+//@ import dtypes "github.com/ovrclk/akash/x/deployment/types"
+//@ import keeper "github.com/ovrclk/akash/x/market/keeper"
+//@ import dkeeper "github.com/ovrclk/akash/x/deployment/keeper"
+//@ import handler "github.com/ovrclk/akash/x/market/handler"
+//@ import sdk "github.com/cosmos/cosmos-sdk/types"
+//@ import ptypes "github.com/ovrclk/akash/x/provider/types"
+//@ import atypes "github.com/ovrclk/akash/x/audit/types"
+
+// A-WIRING: in the application the handler's keeper interfaces are these implementations (app/app.go)
+//@ bind keeper.IKeeper => keeper.Keeper
+//@ bind handler.DeploymentKeeper => dkeeper.Keeper
+
+//@ spec mskey(ms: msgServer): iface = unbox(ms.keepers.Market, keeper.Keeper).skey
+//@ spec dskey(ms: msgServer): iface = unbox(ms.keepers.Deployment, dkeeper.Keeper).skey
+//@ spec wired(ms: msgServer): bool = typeis(ms.keepers.Market, keeper.Keeper) && typeis(ms.keepers.Deployment, dkeeper.Keeper) && mskey(ms) != mktEscrowSKey() && dskey(ms) != mktEscrowSKey() && mskey(ms) != dskey(ms)
+
+// the deployment store under the marketplace hooks: nothing is removed, no group that left the open state re-opens
+//@ spec opaque depKeeps(h0: map[str]bool, v0: map[str]str, h1: map[str]bool, v1: map[str]str): bool =
+//@     (forall key: str :: h0[key] ==> h1[key])
+//@     && (forall g: dtypes.GroupID :: grpOf(v0, g).State != dtypes.GroupOpen ==> grpOf(v1, g).State != dtypes.GroupOpen)
+
+// ---- the escrow module as seen from this handler (A-HOOKS, see x/market/keeper) ----
+//@ extern handler.(EscrowKeeper).AccountCreate(recv, ctx, id, owner, deposit)
+//@   modifies ghost KVhas, ghost KVval, ghost G, ghost Bank, ghost Mod, ghost It_all
+//@   ensures forall sk: iface :: sk != mktEscrowSKey() ==> KVhas[sk] == old(KVhas)[sk] && KVval[sk] == old(KVval)[sk]
+//@ extern handler.(EscrowKeeper).AccountClose(recv, ctx, id)
+//@   modifies ghost KVhas, ghost KVval, ghost G, ghost Bank, ghost Mod, ghost It_all, ghost EvN, ghost EvLog
+//@   ensures id.Scope == "bid" ==> EvN == old(EvN) && EvLog == old(EvLog)
+//@        && (forall sk: iface :: sk != mktEscrowSKey() ==> KVhas[sk] == old(KVhas)[sk] && KVval[sk] == old(KVval)[sk])
+// a payment is created only on an account that is still open after settlement: no hook has run
+//@ extern handler.(EscrowKeeper).PaymentCreate(recv, ctx, id, pid, owner, rate)
+//@   modifies ghost KVhas, ghost KVval, ghost G, ghost Bank, ghost Mod, ghost It_all, ghost EvN, ghost EvLog
+//@   ensures result == nil ==> EvN == old(EvN) && EvLog == old(EvLog)
+//@        && (forall sk: iface :: sk != mktEscrowSKey() ==> KVhas[sk] == old(KVhas)[sk] && KVval[sk] == old(KVval)[sk])
+//@ extern handler.(EscrowKeeper).PaymentClose(recv, ctx, id, pid)
+//@   modifies ghost KVhas, ghost KVval, ghost G, ghost Bank, ghost Mod, ghost It_all, ghost EvN, ghost EvLog, ghost PayCloseReq
+//@   ensures PayCloseReq == old(PayCloseReq)[id.XID := old(PayCloseReq)[id.XID][pid := true]]
+//@   ensures EvN >= old(EvN) && (forall j: int :: 0 <= j && j < old(EvN) ==> EvLog[j] == old(EvLog)[j])
+//@   ensures forall sk: iface :: sk != mktEscrowSKey() ==> keepsClosed(old(KVhas)[sk], old(KVval)[sk], KVhas[sk], KVval[sk]) && depKeeps(old(KVhas)[sk], old(KVval)[sk], KVhas[sk], KVval[sk])
+//@ extern handler.(EscrowKeeper).PaymentWithdraw(recv, ctx, id, pid)
+//@   modifies ghost KVhas, ghost KVval, ghost G, ghost Bank, ghost Mod, ghost It_all, ghost EvN, ghost EvLog
+//@   ensures EvN >= old(EvN) && (forall j: int :: 0 <= j && j < old(EvN) ==> EvLog[j] == old(EvLog)[j])
+//@   ensures forall sk: iface :: sk != mktEscrowSKey() ==> keepsClosed(old(KVhas)[sk], old(KVval)[sk], KVhas[sk], KVval[sk]) && depKeeps(old(KVhas)[sk], old(KVval)[sk], KVhas[sk], KVval[sk])
+
+//@ extern sdk.UnwrapSDKContext(ctx)
+//@   pure
+
+// ---- CloseLease -----------------------------------------------------------------------------
+// Only an active lease with its active bid and matched order is closed; all three are closed together and the
+// payment stream is asked to close; the order is re-created only for a group that is open when it is re-created.
+//@ func (msgServer).CloseLease
+//@   requires msg != nil && wired(ms)
+//@   modifies ghost KVhas, ghost KVval, ghost G, ghost Bank, ghost Mod, ghost It_all, ghost EvN, ghost EvLog, ghost PayCloseReq
+//@   uses keepsClosedTrans, keepsClosedRefl, orderBidDisjoint, orderLeaseDisjoint, bidLeaseDisjoint
+//@   ensures [guards] result1 == nil ==>
+//@        old(KVhas)[mskey(ms)][orderKeyOf(asOrder(msg.LeaseID))] && ordOf(old(KVval)[mskey(ms)], asOrder(msg.LeaseID)).State == types.OrderActive
+//@        && old(KVhas)[mskey(ms)][bidKeyOf(asBid(msg.LeaseID))] && bidOf(old(KVval)[mskey(ms)], asBid(msg.LeaseID)).State == types.BidActive
+//@        && old(KVhas)[mskey(ms)][leaseKeyOf(msg.LeaseID)] && leaseOf(old(KVval)[mskey(ms)], msg.LeaseID).State == types.LeaseActive
+//@   ensures [payment] result1 == nil ==>
+//@        PayCloseReq[depXID(leaseDep(leaseOf(old(KVval)[mskey(ms)], msg.LeaseID).LeaseID))][leasePID(leaseOf(old(KVval)[mskey(ms)], msg.LeaseID).LeaseID)]
+//@   oncall keeper.(IKeeper).OnOrderClosed 1 assert
+//@        leaseOf(KVval[mskey(ms)], lease.LeaseID).State == types.LeaseClosed && bidOf(KVval[mskey(ms)], bid.BidID).State == types.BidClosed
+//@        && ordOf(KVval[mskey(ms)], order.OrderID).State == types.OrderClosed
+//@   oncall keeper.(IKeeper).CreateOrder 1 assert KVhas[dskey(ms)][groupKeyOf(asGroup(msg.LeaseID))] && grpOf(KVval[dskey(ms)], asGroup(msg.LeaseID)).State == dtypes.GroupOpen
+//@ spec asOrder(id: types.LeaseID): types.OrderID
+//@ axiom asOrderDef: forall id: types.LeaseID :: asOrder(id).Owner == id.Owner && asOrder(id).DSeq == id.DSeq && asOrder(id).GSeq == id.GSeq && asOrder(id).OSeq == id.OSeq
+//@   trigger asOrder(id)
+//@ spec asBid(id: types.LeaseID): types.BidID
+//@ axiom asBidDef: forall id: types.LeaseID :: asBid(id).Owner == id.Owner && asBid(id).DSeq == id.DSeq && asBid(id).GSeq == id.GSeq && asBid(id).OSeq == id.OSeq && asBid(id).Provider == id.Provider
+//@   trigger asBid(id)
+//@ spec asGroup(id: types.LeaseID): dtypes.GroupID
+//@ axiom asGroupDef: forall id: types.LeaseID :: asGroup(id).Owner == id.Owner && asGroup(id).DSeq == id.DSeq && asGroup(id).GSeq == id.GSeq
+//@   trigger asGroup(id)
+//@ spec leaseDep(id: types.LeaseID): dtypes.DeploymentID
+//@ axiom leaseDepDef: forall id: types.LeaseID :: leaseDep(id).Owner == id.Owner && leaseDep(id).DSeq == id.DSeq
+//@   trigger leaseDep(id)
+
+//@ property C04 := (msgServer).CloseLease#*
